@@ -3,15 +3,15 @@ CONSTANTS
   AckMode = "shaped"
   ThrMode = "fixed"
   EmptyMode = "fixed"
-  CfgSet <- CoreCfgs
-  SameCfg = FALSE
+  CfgSet <- TinyCfg
+  SameCfg = TRUE
   Openers = {"A"}
   MaxOpens = 1
   Ids = {1}
   Hosts = {"h0"}
-  MaxWrites = 3
-  Lens = {1, 2}
-  ReadMax = {1, 4}
+  MaxWrites = 1
+  Lens = {1}
+  ReadMax = {4}
   Closers = {}
   MuxDroppers = {}
   DgSenders = {}
@@ -19,8 +19,8 @@ CONSTANTS
   Binders = {}
   MaxBinds = 0
   Faults = {}
-  AdvMsgs = {}
-  MaxAdv = 0
+  AdvMsgs <- AdvSet
+  MaxAdv = 2
   MaxHandles = 2
   MaxCtr = 1
 VIEW View
